@@ -193,3 +193,101 @@ func RunBAM(out string) {
 }
 
 var _ = io.EOF
+
+// RunBAMCuts: C10 (BAM half) - BAM streams cut at every member boundary, one byte either
+// side of it, and a few places inside members, read through bam.Reader to the end.
+func RunBAMCuts(out string) {
+	t := tr.Create(out)
+	defer t.Close()
+	r := tr.Rand(1010)
+	full := B - 4
+	profiles := [][]int{
+		{60, 61, 62, 100, 45, 200, 64, 64},
+		{full, 100, full - 1, 60, full + 1, 70},
+		{3*B + 17, 80, 2 * B, 90},
+		{5000, 5000, 50000, 5275, 100, 60000},
+	}
+	if tr.Tier() == "thorough" {
+		for i := 0; i < 10; i++ {
+			var s []int
+			for j := 0; j < 3+r.Intn(10); j++ {
+				s = append(s, []int{50 + r.Intn(200), 4000 + r.Intn(3000), full, full + 1, B + r.Intn(2*B)}[r.Intn(5)])
+			}
+			profiles = append(profiles, s)
+		}
+	}
+	for _, sizes := range profiles {
+		h := bamx.Header(2)
+		var recs []*sam.Record
+		for i, sz := range sizes {
+			recs = append(recs, bamx.Record(h, i+1, i%2, 100+i*10, sz))
+		}
+		b, err := bamx.Build(h, recs, 2, 1)
+		if err != nil {
+			continue
+		}
+		lay := bamx.Parse(b)
+		if !lay.OK {
+			continue
+		}
+		cuts := map[int]bool{}
+		var prefix []int64 // logical length before member i
+		var lg int64
+		for _, m := range lay.File.Members {
+			prefix = append(prefix, lg)
+			lg += int64(m.Len)
+			for _, d := range []int{-1, 0, 1, 5, 18, 19} {
+				c := int(m.Base) + d
+				if c > 0 && c < len(b) {
+					cuts[c] = true
+				}
+			}
+			if m.Size > 40 {
+				cuts[int(m.Base)+m.Size/2] = true
+			}
+		}
+		for cut := range cuts {
+			// logical data wholly present: members entirely before the cut
+			var avail int64
+			boundary := false
+			for i, m := range lay.File.Members {
+				if int(m.Base)+m.Size <= cut {
+					avail = prefix[i] + int64(m.Len)
+				}
+				if int(m.Base) == cut {
+					boundary = true
+				}
+			}
+			rd := []int{1, 2}[cut%2]
+			t.Begin("bamcut", tr.M{"recs": lay.Recs, "hdrLen": lay.HdrLen, "avail": avail, "boundary": boundary, "cut": cut, "rd": rd})
+			var br *bam.Reader
+			res := watch.Call(bgz.Marker, func() { br, err = bam.NewReader(bytes.NewReader(b[:cut]), rd) })
+			if res.Res != "ok" {
+				t.Ev("stuck", tr.M{"op": "new", "res": res.Res, "sig": "bamcut/new/" + res.Res})
+				continue
+			}
+			t.Ev("bnew", tr.M{"err": bgz.ErrClass(err, nil), "sig": "bamcut/new"})
+			if err != nil {
+				continue
+			}
+			for k := 1; k <= len(recs)+2; k++ {
+				var rec *sam.Record
+				var e error
+				res := watch.Call(bgz.Marker, func() { rec, e = br.Read() })
+				if res.Res != "ok" {
+					t.Ev("stuck", tr.M{"op": "read", "res": res.Res, "detail": res.Detail, "sig": "bamcut/read/" + res.Res})
+					break
+				}
+				if e != nil {
+					t.Ev("bend", tr.M{"err": bgz.ErrClass(e, nil), "count": k - 1, "sig": "bamcut/end"})
+					break
+				}
+				same := k <= len(recs) && rec.Name == recs[k-1].Name && rec.Pos == recs[k-1].Pos && rec.Seq.Length == recs[k-1].Seq.Length &&
+					string(rec.Qual) == string(recs[k-1].Qual) && string(rec.Seq.Expand()) == string(recs[k-1].Seq.Expand())
+				t.Ev("brec", tr.M{"k": k, "idx": recIdx(rec), "same": same, "sig": "bamcut/rec"})
+			}
+			br.Close()
+		}
+	}
+	tr.Summary(tr.M{"scenarios": t.Scen, "lines": t.Lines, "sigs": t.Sigs()})
+}
